@@ -1244,6 +1244,411 @@ fn comparisons(t: &mut Tally, rng: &mut Rng, maxn: usize) {
     }
 }
 
+// ---------------------------------------------------------------------------------------------
+// comparisons and predicates across extreme magnitudes (1e-300 .. 1e300, subnormals, signed zeros)
+//
+// `close_to` is a *relative* comparison (`rel_diff`), so for two non-zero values of opposite sign the
+// answer is "not close" at every magnitude: |a − b| / min(|a|,|b|) >= 2 > tol. A sign test that is
+// computed through a product, a quotient, a sum or a difference of the two values under- or overflows
+// at the ends of the range; the pairs below sit there. +0.0 / −0.0 are the same number.
+
+#[derive(Clone, Copy, PartialEq)]
+enum Band {
+    Tiny,
+    Mid,
+    Huge,
+}
+
+/// a magnitude in the band; `resolved`: a normal number far enough from both limits that x·(1 ± 0.2) is
+/// computed with full relative precision and does not overflow
+fn xmag(rng: &mut Rng, band: Band, resolved: bool) -> f64 {
+    match band {
+        Band::Tiny => {
+            if !resolved && rng.chance(0.25) {
+                *rng.choose(&[5e-324, 1e-310, f64::MIN_POSITIVE, 3e-300, 1e-200, 1e-162, 1.5e-154])
+            } else {
+                rng.log_range(if resolved { 1e-290 } else { 1e-300 }, 1e-150)
+            }
+        }
+        Band::Mid => rng.log_range(1e-150, 1e150),
+        Band::Huge => {
+            if !resolved && rng.chance(0.25) {
+                *rng.choose(&[1.3e154, 1e200, 3e300, f64::MAX / 4.0, f64::MAX])
+            } else {
+                rng.log_range(1e150, 1e300)
+            }
+        }
+    }
+}
+
+fn comparisons_extreme(t: &mut Tally, rng: &mut Rng) {
+    let band = *rng.choose(&[Band::Tiny, Band::Tiny, Band::Mid, Band::Huge, Band::Huge]);
+    let n = rng.usize(1, 6);
+    let k = rng.usize(0, n - 1);
+    let tol = rng.log_range(1e-12, 1e-2);
+    let sign = |rng: &mut Rng| if rng.bool() { 1.0 } else { -1.0 };
+    // x: any magnitude of the band (subnormals and the largest finite numbers included);
+    // xr: well-resolved magnitudes only (for the pairs that differ by a relative amount)
+    let mixed = rng.chance(0.3);
+    let x: Vec<f64> = (0..n).map(|i| xmag(rng, if mixed && i != k { Band::Mid } else { band }, false) * sign(rng)).collect();
+    let xr: Vec<f64> = (0..n).map(|i| xmag(rng, if mixed && i != k { Band::Mid } else { band }, true) * sign(rng)).collect();
+    let d_near = rng.range(-0.1, 0.1) * tol;
+    let flip = |v: &[f64]| -> Vec<f64> { v.iter().enumerate().map(|(i, a)| if i == k { -a } else { *a }).collect() };
+    let (r_opp, r_oppm, r_id, r_idm, r_near, r_nearm, r_far, r_farm) = match band {
+        Band::Tiny => ("close_to:opposite-sign:|x|<1e-150", "mat_close_to:opposite-sign:|x|<1e-150", "close_to:identical:|x|<1e-150", "mat_close_to:identical:|x|<1e-150", "close_to:near:|x|<1e-150", "mat_close_to:near:|x|<1e-150", "close_to:far:|x|<1e-150", "mat_close_to:far:|x|<1e-150"),
+        Band::Mid => ("close_to:opposite-sign:1e-150..1e150", "mat_close_to:opposite-sign:1e-150..1e150", "close_to:identical:1e-150..1e150", "mat_close_to:identical:1e-150..1e150", "close_to:near:1e-150..1e150", "mat_close_to:near:1e-150..1e150", "close_to:far:1e-150..1e150", "mat_close_to:far:1e-150..1e150"),
+        Band::Huge => ("close_to:opposite-sign:|x|>1e150", "mat_close_to:opposite-sign:|x|>1e150", "close_to:identical:|x|>1e150", "mat_close_to:identical:|x|>1e150", "close_to:near:|x|>1e150", "mat_close_to:near:|x|>1e150", "close_to:far:|x|>1e150", "mat_close_to:far:|x|>1e150"),
+    };
+    // (regime, matrix regime, x, y, expected)
+    let mut pairs: Vec<(&'static str, &'static str, Vec<f64>, Vec<f64>, bool)> = vec![
+        // equal magnitude, opposite sign in one position
+        (r_opp, r_oppm, x.clone(), flip(&x), false),
+        // nearly equal magnitude (within tol/10), opposite sign in one position
+        (r_opp, r_oppm, xr.clone(), xr.iter().enumerate().map(|(i, a)| if i == k { -a * (1.0 + d_near) } else { *a }).collect(), false),
+        (r_id, r_idm, x.clone(), x.clone(), true),
+        (r_near, r_nearm, xr.clone(), xr.iter().map(|a| a * (1.0 + d_near)).collect(), true),
+        (r_far, r_farm, xr.clone(), xr.iter().enumerate().map(|(i, a)| if i == k { a * (1.0 + 10.0 * tol) } else { *a }).collect(), false),
+    ];
+    // signed zeros: the same vector with the sign of every zero flipped (non-zero entries identical)
+    let z: Vec<f64> = (0..n).map(|i| if i == k || rng.bool() { if rng.bool() { 0.0 } else { -0.0 } } else { x[i] }).collect();
+    let zf: Vec<f64> = z.iter().map(|&a| if a == 0.0 { -a } else { a }).collect();
+    pairs.push(("close_to:signed-zeros", "mat_close_to:signed-zeros", z.clone(), zf.clone(), true));
+    for (rv, rm, a, b, expect) in pairs.iter() {
+        let (va, vb) = (Vector::new(a.clone()), Vector::new(b.clone()));
+        t.case(rv);
+        answer(t, [id!("close_to", "no_panic"), id!("close_to", "answer")], rv, guard(|| va.close_to(&vb, tol)), *expect, &|| json!({"call": "Vector::close_to(x, y, tol)", "x": jf(a), "y": jf(b), "tol": tol}));
+        // the relation is symmetric in its arguments
+        answer(t, [id!("close_to", "no_panic"), id!("close_to", "answer")], rv, guard(|| vb.close_to(&va, tol)), *expect, &|| json!({"call": "Vector::close_to(y, x, tol)", "x": jf(a), "y": jf(b), "tol": tol}));
+        t.case(rm);
+        let (ma, mb) = if rng.bool() { (Matrix::new(a.clone(), 1, n as i32), Matrix::new(b.clone(), 1, n as i32)) } else { (Matrix::new(a.clone(), n as i32, 1), Matrix::new(b.clone(), n as i32, 1)) };
+        answer(t, [id!("mat_close_to", "no_panic"), id!("mat_close_to", "answer")], rm, guard(|| ma.close_to(&mb, tol)), *expect, &|| json!({"call": "Matrix::close_to(x, y, tol) (1 x n or n x 1)", "x": jf(a), "y": jf(b), "tol": tol}));
+    }
+    // == : |x_i − y_i| <= f64::EPSILON element-wise (absolute). Opposite signs are asserted where the
+    // magnitudes are >= 1e3 x that tolerance (below it the definition itself equates them).
+    let e: Vec<f64> = (0..n).map(|_| rng.log_range(1e3 * f64::EPSILON, 1e300) * sign(rng)).collect();
+    let eq_pairs: [(&'static str, &'static str, Vec<f64>, Vec<f64>, bool); 5] = [
+        ("eq:identical:1e-300..1e300", "mat_eq:identical:1e-300..1e300", x.clone(), x.clone(), true),
+        ("eq:opposite-sign:2e-13..1e300", "mat_eq:opposite-sign:2e-13..1e300", e.clone(), flip(&e), false),
+        ("eq:opposite-sign:2e-13..1e300", "mat_eq:opposite-sign:2e-13..1e300", e.clone(), e.iter().enumerate().map(|(i, a)| if i == k { -a * (1.0 + d_near) } else { *a }).collect(), false),
+        ("eq:different:2e-13..1e300", "mat_eq:different:2e-13..1e300", e.clone(), e.iter().enumerate().map(|(i, a)| if i == k { a * 1.001 + a.signum() * 1e-9 } else { *a }).collect(), false),
+        ("eq:signed-zeros", "mat_eq:signed-zeros", z.clone(), zf.clone(), true),
+    ];
+    for (rv, rm, a, b, expect) in eq_pairs.iter() {
+        let (va, vb) = (Vector::new(a.clone()), Vector::new(b.clone()));
+        t.case(rv);
+        answer(t, [id!("vec_eq", "no_panic"), id!("vec_eq", "answer")], rv, guard(|| va == vb), *expect, &|| json!({"call": "Vector == Vector", "x": jf(a), "y": jf(b)}));
+        answer(t, [id!("vec_eq", "no_panic"), id!("vec_eq", "answer")], rv, guard(|| vb == va), *expect, &|| json!({"call": "Vector == Vector (swapped)", "x": jf(a), "y": jf(b)}));
+        t.case(rm);
+        let (ma, mb) = (Matrix::new(a.clone(), n as i32, 1), Matrix::new(b.clone(), n as i32, 1));
+        answer(t, [id!("mat_eq", "no_panic"), id!("mat_eq", "answer")], rm, guard(|| ma == mb), *expect, &|| json!({"call": "Matrix == Matrix (n x 1)", "x": jf(a), "y": jf(b)}));
+    }
+}
+
+/// symmetric / triangular predicates on matrices whose entries sit at the ends of the f64 range
+fn predicates_extreme(t: &mut Tally, rng: &mut Rng) {
+    let n = rng.usize(2, 6);
+    let band = *rng.choose(&[Band::Tiny, Band::Tiny, Band::Mid, Band::Huge, Band::Huge]);
+    // a symmetric matrix with entries of either sign in the band (subnormals / near-MAX included)
+    let mut s = vec![0.0; n * n];
+    for i in 0..n {
+        for j in i..n {
+            let v = xmag(rng, band, false) * if rng.bool() { 1.0 } else { -1.0 };
+            s[i * n + j] = v;
+            s[j * n + i] = v;
+        }
+    }
+    let (i, j) = {
+        let i = rng.usize(1, n - 1);
+        (i, rng.usize(0, i - 1))
+    };
+    // negatives: one mirrored pair of opposite sign; one pair differing by 1e-3 relative (resolved magnitude)
+    let mut opp = s.clone();
+    opp[i * n + j] = -opp[j * n + i];
+    let mut pert = s.clone();
+    let base = xmag(rng, band, true);
+    pert[j * n + i] = base;
+    pert[i * n + j] = base * (1.0 + rng.log_range(1e-3, 0.2));
+    let (rp, rps, rn, rns) = match band {
+        Band::Tiny => ("is_symmetric:positive:|x|<1e-150", "is_symmetric(slice):positive:|x|<1e-150", "is_symmetric:negative:|x|<1e-150", "is_symmetric(slice):negative:|x|<1e-150"),
+        Band::Mid => ("is_symmetric:positive:1e-150..1e150", "is_symmetric(slice):positive:1e-150..1e150", "is_symmetric:negative:1e-150..1e150", "is_symmetric(slice):negative:1e-150..1e150"),
+        Band::Huge => ("is_symmetric:positive:|x|>1e150", "is_symmetric(slice):positive:|x|>1e150", "is_symmetric:negative:|x|>1e150", "is_symmetric(slice):negative:|x|>1e150"),
+    };
+    for (rm, rs, data, expect, why) in [(rp, rps, &s, true, "exactly symmetric"), (rn, rns, &opp, false, "one mirrored pair of opposite sign"), (rn, rns, &pert, false, "one mirrored pair differing by >= 1e-3 relative")] {
+        let m = Matrix::new(data.clone(), n as i32, n as i32);
+        t.case(rm);
+        answer(t, [id!("is_symmetric", "no_panic"), id!("is_symmetric", "answer")], rm, guard(|| m.is_symmetric()), expect, &|| json!({"call": "Matrix::is_symmetric", "n": n, "data": jf(data), "construction": why, "pair": [i, j]}));
+        t.case(rs);
+        answer(t, [id!("is_symmetric_slice", "no_panic"), id!("is_symmetric_slice", "answer")], rs, guard(|| is_symmetric(data)), expect, &|| json!({"call": "is_symmetric(slice)", "n": n, "data": jf(data), "construction": why, "pair": [i, j]}));
+    }
+    // triangular: the definition is "exactly zero"; a single non-zero entry of the smallest magnitudes offends
+    let (r, c) = (rng.usize(2, 6), rng.usize(2, 6));
+    let mut u = vec![0.0; r * c];
+    for a in 0..r {
+        for b in a..c {
+            u[a * c + b] = xmag(rng, band, false) * if rng.bool() { 1.0 } else { -1.0 };
+        }
+    }
+    let l: Vec<f64> = {
+        // the transposed pattern in the same r x c shape
+        let mut l = vec![0.0; r * c];
+        for a in 0..r {
+            for b in 0..c.min(a + 1) {
+                l[a * c + b] = xmag(rng, band, false) * if rng.bool() { 1.0 } else { -1.0 };
+            }
+        }
+        l
+    };
+    let off = *rng.choose(&[5e-324, -5e-324, 1e-310, -f64::MIN_POSITIVE, 3e-300, -1e-200, 1e-17]);
+    let (mut ubad, mut lbad) = (u.clone(), l.clone());
+    let bi = rng.usize(1, r - 1);
+    let bj = rng.usize(0, bi.min(c) - 1);
+    ubad[bi * c + bj] = off; // below the diagonal
+    let ai = rng.usize(0, r.min(c - 1) - 1);
+    let aj = rng.usize(ai + 1, c - 1);
+    lbad[ai * c + aj] = off; // above the diagonal
+    for (upper, data, expect, why) in [(true, &u, true, "zero below the diagonal"), (true, &ubad, false, "one tiny non-zero entry below the diagonal"), (false, &l, true, "zero above the diagonal"), (false, &lbad, false, "one tiny non-zero entry above the diagonal")] {
+        let m = Matrix::new(data.clone(), r as i32, c as i32);
+        if upper {
+            // tall matrices have rows that lie entirely below the diagonal: a mechanism (and signature) of its own
+            let rg = match (expect, r > c) {
+                (true, false) => "is_upper_triangular:extreme-entries",
+                (true, true) => "is_upper_triangular:extreme-entries:tall",
+                (false, false) => "is_upper_triangular:tiny-offender",
+                (false, true) => "is_upper_triangular:tiny-offender:tall",
+            };
+            t.case(rg);
+            answer(t, [id!("is_upper_triangular", "no_panic"), id!("is_upper_triangular", "answer")], rg, guard(|| m.is_upper_triangular()), expect, &|| json!({"call": "is_upper_triangular", "shape": [r, c], "data": jf(data), "construction": why}));
+        } else {
+            let rg = match (expect, r < c) {
+                (true, false) => "is_lower_triangular:extreme-entries",
+                (true, true) => "is_lower_triangular:extreme-entries:wide",
+                (false, false) => "is_lower_triangular:tiny-offender",
+                (false, true) => "is_lower_triangular:tiny-offender:wide",
+            };
+            t.case(rg);
+            answer(t, [id!("is_lower_triangular", "no_panic"), id!("is_lower_triangular", "answer")], rg, guard(|| m.is_lower_triangular()), expect, &|| json!({"call": "is_lower_triangular", "shape": [r, c], "data": jf(data), "construction": why}));
+        }
+    }
+}
+
+// ---------------------------------------------------------------------------------------------
+// predicates on matrices built from a small set of special values (signs, zeros, near-ones), every
+// shape 1..8 x 1..8 in turn; comparisons of operands that are prefixes / extensions / reshapes of
+// one another. Random real data never produces an exact −1 next to a +1 or two operands of different
+// length that agree on their common part, so these classes are constructed.
+
+const SPECIAL: [f64; 12] = [1.0, -1.0, 0.0, -0.0, 0.5, 2.0, -2.0, 1.001, 0.999, -0.5, 3.0, 1e-3];
+
+fn special(rng: &mut Rng) -> f64 {
+    *rng.choose(&SPECIAL)
+}
+
+fn predicates_special(t: &mut Tally, rng: &mut Rng, case: usize) {
+    // every shape of the quantifier in turn
+    let (r, c) = (1 + case % 8, 1 + (case / 8) % 8);
+    // --- design matrices: the definition is "every entry of the first column is one"
+    {
+        let mut d: Vec<f64> = (0..r * c).map(|_| special(rng)).collect();
+        let class = rng.usize(0, 3);
+        for i in 0..r {
+            d[i * c] = match class {
+                0 | 1 => 1.0,
+                2 => *rng.choose(&[1.0, -1.0]),
+                _ => special(rng),
+            };
+        }
+        if class == 1 {
+            // exactly one intercept entry replaced by a value that is not one
+            d[rng.usize(0, r - 1) * c] = *rng.choose(&[-1.0, 0.0, -0.0, 0.5, 2.0, 1.001, 0.999, -2.0]);
+        }
+        if class == 2 {
+            d[rng.usize(0, r - 1) * c] = -1.0; // at least one sign-flipped intercept
+        }
+        let first: Vec<f64> = (0..r).map(|i| d[i * c]).collect();
+        let expect = first.iter().all(|&v| v == 1.0);
+        let regime = if expect {
+            "is_design:special:all-ones"
+        } else if first.iter().all(|&v| v.abs() == 1.0) {
+            "is_design:special:intercepts-of-magnitude-1-with-a-negative-one"
+        } else {
+            "is_design:special:non-unit-intercept"
+        };
+        t.case(regime);
+        answer(t, [id!("is_design", "no_panic"), id!("is_design", "answer")], regime, guard(|| is_design(&d, r)), expect, &|| json!({"call": format!("is_design(data, {})", r), "shape": [r, c], "data": jf(&d), "first_column": jf(&first)}));
+        // the negated matrix is a design matrix only if the original intercept column is all −1
+        let neg: Vec<f64> = d.iter().map(|v| -v).collect();
+        let nexpect = first.iter().all(|&v| v == -1.0);
+        let nregime = if nexpect { "is_design:special:all-ones" } else if first.iter().all(|&v| v.abs() == 1.0) { "is_design:special:intercepts-of-magnitude-1-with-a-negative-one" } else { "is_design:special:non-unit-intercept" };
+        t.case(nregime);
+        answer(t, [id!("is_design", "no_panic"), id!("is_design", "answer")], nregime, guard(|| is_design(&neg, r)), nexpect, &|| json!({"call": format!("is_design(-data, {})", r), "shape": [r, c], "data": jf(&neg)}));
+    }
+    // --- triangular structure on this shape: entries from the special set, zeros of either sign count as zero
+    {
+        let pat = rng.usize(0, 4); // 0 upper, 1 lower, 2 diagonal, 3 upper + one offender, 4 lower + one offender
+        let mut a = vec![0.0; r * c];
+        for i in 0..r {
+            for j in 0..c {
+                let keep = match pat {
+                    0 | 3 => j >= i,
+                    1 | 4 => j <= i,
+                    _ => i == j,
+                };
+                a[i * c + j] = if keep { special(rng) } else if rng.bool() { 0.0 } else { -0.0 };
+            }
+        }
+        let off = *rng.choose(&[1.0, -1.0, 0.5, -2.0, 1e-3, -1e-3]);
+        if pat == 3 && r >= 2 {
+            let i = rng.usize(1, r - 1);
+            let j = rng.usize(0, i.min(c) - 1);
+            a[i * c + j] = off;
+        }
+        if pat == 4 && c >= 2 {
+            let i = rng.usize(0, r.min(c - 1) - 1);
+            let j = rng.usize(i + 1, c - 1);
+            a[i * c + j] = off;
+        }
+        let upper = (0..r).all(|i| (0..c.min(i)).all(|j| a[i * c + j] == 0.0));
+        let lower = (0..r).all(|i| (i + 1..c).all(|j| a[i * c + j] == 0.0));
+        let (ru, rl) = if r == c {
+            ("is_upper_triangular:special:square", "is_lower_triangular:special:square")
+        } else if r > c {
+            ("is_upper_triangular:special:tall", "is_lower_triangular:special:tall")
+        } else {
+            ("is_upper_triangular:special:wide", "is_lower_triangular:special:wide")
+        };
+        let neg: Vec<f64> = a.iter().map(|v| -v).collect();
+        for (data, what) in [(&a, "m"), (&neg, "-m")] {
+            let m = Matrix::new(data.clone(), r as i32, c as i32);
+            t.case(ru);
+            answer(t, [id!("is_upper_triangular", "no_panic"), id!("is_upper_triangular", "answer")], ru, guard(|| m.is_upper_triangular()), upper, &|| json!({"call": format!("({}).is_upper_triangular()", what), "shape": [r, c], "data": jf(data)}));
+            t.case(rl);
+            answer(t, [id!("is_lower_triangular", "no_panic"), id!("is_lower_triangular", "answer")], rl, guard(|| m.is_lower_triangular()), lower, &|| json!({"call": format!("({}).is_lower_triangular()", what), "shape": [r, c], "data": jf(data)}));
+        }
+        // the transpose (c x r) is lower triangular exactly when m is upper triangular, and vice versa
+        let tr = flat(&mt(&unflat(&a, r, c)));
+        let m = Matrix::new(tr.clone(), c as i32, r as i32);
+        let (rtu, rtl) = if r == c {
+            ("is_upper_triangular:special:square", "is_lower_triangular:special:square")
+        } else if c > r {
+            ("is_upper_triangular:special:tall", "is_lower_triangular:special:tall")
+        } else {
+            ("is_upper_triangular:special:wide", "is_lower_triangular:special:wide")
+        };
+        t.case(rtl);
+        answer(t, [id!("is_lower_triangular", "no_panic"), id!("is_lower_triangular", "answer")], rtl, guard(|| m.is_lower_triangular()), upper, &|| json!({"call": "transpose.is_lower_triangular()", "shape": [c, r], "data": jf(&tr)}));
+        t.case(rtu);
+        answer(t, [id!("is_upper_triangular", "no_panic"), id!("is_upper_triangular", "answer")], rtu, guard(|| m.is_upper_triangular()), lower, &|| json!({"call": "transpose.is_upper_triangular()", "shape": [c, r], "data": jf(&tr)}));
+    }
+    // --- symmetry (square n = r): special values; negatives differ in sign only, or by 1e-3, in one mirrored pair
+    {
+        let n = r;
+        let mut sy = vec![0.0; n * n];
+        for i in 0..n {
+            for j in i..n {
+                let v = special(rng);
+                sy[i * n + j] = v;
+                sy[j * n + i] = if v == 0.0 && rng.bool() { -v } else { v }; // +0 / −0 are the same value
+            }
+        }
+        let mut cases: Vec<(&'static str, &'static str, Vec<f64>, bool, &'static str)> = vec![("is_symmetric:special:positive", "is_symmetric(slice):special:positive", sy.clone(), true, "symmetric (mirrored zeros may differ in sign)")];
+        if n >= 2 {
+            let i = rng.usize(1, n - 1);
+            let j = rng.usize(0, i - 1);
+            let v = *rng.choose(&[1.0, -1.0, 0.5, 2.0, -2.0, 3.0, 1e-3]);
+            let mut flipped = sy.clone();
+            flipped[i * n + j] = v;
+            flipped[j * n + i] = -v;
+            cases.push(("is_symmetric:special:mirrored-pair-of-opposite-sign", "is_symmetric(slice):special:mirrored-pair-of-opposite-sign", flipped, false, "a_ij = -a_ji != 0 in one pair"));
+            let mut near = sy.clone();
+            near[i * n + j] = v;
+            near[j * n + i] = v * 1.001;
+            cases.push(("is_symmetric:special:mirrored-pair-differs", "is_symmetric(slice):special:mirrored-pair-differs", near, false, "a_ij = 1.001 a_ji in one pair"));
+            // the fully negated symmetric matrix is symmetric
+            cases.push(("is_symmetric:special:positive", "is_symmetric(slice):special:positive", sy.iter().map(|v| -v).collect(), true, "negated symmetric matrix"));
+        }
+        for (rm, rs, data, expect, why) in cases.iter() {
+            let m = Matrix::new(data.clone(), n as i32, n as i32);
+            t.case(rm);
+            answer(t, [id!("is_symmetric", "no_panic"), id!("is_symmetric", "answer")], rm, guard(|| m.is_symmetric()), *expect, &|| json!({"call": "Matrix::is_symmetric", "n": n, "data": jf(data), "construction": why}));
+            t.case(rs);
+            answer(t, [id!("is_symmetric_slice", "no_panic"), id!("is_symmetric_slice", "answer")], rs, guard(|| is_symmetric(data)), *expect, &|| json!({"call": "is_symmetric(slice)", "n": n, "data": jf(data), "construction": why}));
+        }
+    }
+}
+
+/// operands of different length / shape that agree on everything they have in common
+fn comparisons_prefix(t: &mut Tally, rng: &mut Rng) {
+    let n = rng.usize(1, 12);
+    let extra = rng.usize(1, 3);
+    let base: Vec<f64> = match rng.usize(0, 3) {
+        0 => vec![*rng.choose(&[0.0, 1.0, -1.0, 2.5]); n + extra], // constant vectors of different length
+        1 => (0..n + extra).map(|i| i as f64 * 0.25).collect(),   // grid points: linspace(0,1,5) vs arange(0,1,.25)
+        2 => distinct_values(rng, n + extra),
+        _ => (0..n + extra).map(|_| special(rng)).collect(),
+    };
+    let (short, long) = (base[..n].to_vec(), base.clone());
+    let (vs, vl) = (Vector::new(short.clone()), Vector::new(long.clone()));
+    let tol = rng.log_range(1e-12, 1e-2);
+    let d = || json!({"short": jf(&short), "long (short + further elements)": jf(&long)});
+    t.case("eq:prefix-extension");
+    answer(t, [id!("vec_eq", "no_panic"), id!("vec_eq", "answer")], "eq:prefix-extension", guard(|| vs == vl), false, &|| json!({"call": "short == long", "operands": d()}));
+    answer(t, [id!("vec_eq", "no_panic"), id!("vec_eq", "answer")], "eq:prefix-extension", guard(|| vl == vs), false, &|| json!({"call": "long == short", "operands": d()}));
+    answer(t, [id!("vec_eq", "no_panic"), id!("vec_eq", "answer")], "eq:prefix-extension", guard(|| !(vs != vl)), false, &|| json!({"call": "!(short != long)", "operands": d()}));
+    t.case("close_to:prefix-extension");
+    answer(t, [id!("close_to", "no_panic"), id!("close_to", "answer")], "close_to:prefix-extension", guard(|| vs.close_to(&vl, tol)), false, &|| json!({"call": "short.close_to(long, tol)", "operands": d(), "tol": tol}));
+    answer(t, [id!("close_to", "no_panic"), id!("close_to", "answer")], "close_to:prefix-extension", guard(|| vl.close_to(&vs, tol)), false, &|| json!({"call": "long.close_to(short, tol)", "operands": d(), "tol": tol}));
+    // matrices: a block and its extension by further rows (row-major data in a prefix relation)
+    let c = rng.usize(1, 4);
+    let (r0, r1) = (rng.usize(1, 4), rng.usize(1, 3));
+    let data: Vec<f64> = if rng.bool() { vec![1.5; (r0 + r1) * c] } else { distinct_values(rng, (r0 + r1) * c) };
+    let (ms, ml) = (Matrix::new(data[..r0 * c].to_vec(), r0 as i32, c as i32), Matrix::new(data.clone(), (r0 + r1) as i32, c as i32));
+    let dm = || json!({"block": jlib(&ms), "block with further rows": jlib(&ml)});
+    t.case("mat_eq:prefix-extension");
+    answer(t, [id!("mat_eq", "no_panic"), id!("mat_eq", "answer")], "mat_eq:prefix-extension", guard(|| ms == ml), false, &|| json!({"call": "block == extended", "operands": dm()}));
+    answer(t, [id!("mat_eq", "no_panic"), id!("mat_eq", "answer")], "mat_eq:prefix-extension", guard(|| ml == ms), false, &|| json!({"call": "extended == block", "operands": dm()}));
+    t.case("mat_close_to:prefix-extension");
+    answer(t, [id!("mat_close_to", "no_panic"), id!("mat_close_to", "answer")], "mat_close_to:prefix-extension", guard(|| ms.close_to(&ml, tol)), false, &|| json!({"call": "block.close_to(extended, tol)", "operands": dm()}));
+    answer(t, [id!("mat_close_to", "no_panic"), id!("mat_close_to", "answer")], "mat_close_to:prefix-extension", guard(|| ml.close_to(&ms, tol)), false, &|| json!({"call": "extended.close_to(block, tol)", "operands": dm()}));
+    // equal data, different shape: every pair of distinct factorisations of the length (2x3, 3x2, 1x6, 6x1, ...)
+    let len = *rng.choose(&[2usize, 3, 4, 6, 8, 9, 12, 16, 24, 36, 64]);
+    let shapes: Vec<(usize, usize)> = (1..=len).filter(|k| len % k == 0 && *k <= 64 && len / k <= 64).map(|k| (k, len / k)).collect();
+    let data: Vec<f64> = if rng.chance(0.3) { vec![-2.0; len] } else { distinct_values(rng, len) };
+    let (i, mut j) = (rng.usize(0, shapes.len() - 1), rng.usize(0, shapes.len() - 1));
+    if i == j {
+        j = (j + 1) % shapes.len();
+    }
+    let (sa, sb) = (shapes[i], shapes[j]);
+    let (ma, mb) = (Matrix::new(data.clone(), sa.0 as i32, sa.1 as i32), Matrix::new(data.clone(), sb.0 as i32, sb.1 as i32));
+    let what = |op: &str| json!(format!("the same {} values as {}x{} and as {}x{}: {}", len, sa.0, sa.1, sb.0, sb.1, op));
+    t.case("mat_eq:same-data-different-shape");
+    answer(t, [id!("mat_eq", "no_panic"), id!("mat_eq", "answer")], "mat_eq:same-data-different-shape", guard(|| ma == mb), false, &|| what("=="));
+    t.case("mat_close_to:same-data-different-shape");
+    answer(t, [id!("mat_close_to", "no_panic"), id!("mat_close_to", "answer")], "mat_close_to:same-data-different-shape", guard(|| ma.close_to(&mb, tol)), false, &|| what("close_to"));
+    // and the positive control: the same shape and data compare equal / close
+    let mc = Matrix::new(data.clone(), sa.0 as i32, sa.1 as i32);
+    t.case("mat_eq:same-data-same-shape");
+    answer(t, [id!("mat_eq", "no_panic"), id!("mat_eq", "answer")], "mat_eq:same-data-same-shape", guard(|| ma == mc), true, &|| what("== (same shape)"));
+    answer(t, [id!("mat_close_to", "no_panic"), id!("mat_close_to", "answer")], "mat_eq:same-data-same-shape", guard(|| ma.close_to(&mc, tol)), true, &|| what("close_to (same shape)"));
+}
+
+const SPECIAL_REGIMES: [&str; 19] = [
+    "is_design:special:all-ones", "is_design:special:intercepts-of-magnitude-1-with-a-negative-one", "is_design:special:non-unit-intercept",
+    "is_upper_triangular:special:square", "is_upper_triangular:special:tall", "is_upper_triangular:special:wide",
+    "is_lower_triangular:special:square", "is_lower_triangular:special:tall", "is_lower_triangular:special:wide",
+    "is_symmetric:special:positive", "is_symmetric:special:mirrored-pair-of-opposite-sign", "is_symmetric:special:mirrored-pair-differs",
+    "eq:prefix-extension", "close_to:prefix-extension", "mat_eq:prefix-extension", "mat_close_to:prefix-extension",
+    "mat_eq:same-data-different-shape", "mat_close_to:same-data-different-shape", "mat_eq:same-data-same-shape",
+];
+
+/// regimes of the extreme-magnitude comparisons that every native run must reach
+const EXTREME_REGIMES: [&str; 17] = [
+    "close_to:opposite-sign:|x|<1e-150", "close_to:opposite-sign:1e-150..1e150", "close_to:opposite-sign:|x|>1e150",
+    "mat_close_to:opposite-sign:|x|<1e-150", "mat_close_to:opposite-sign:|x|>1e150",
+    "close_to:near:|x|<1e-150", "close_to:near:|x|>1e150", "close_to:identical:|x|<1e-150", "close_to:identical:|x|>1e150", "close_to:far:|x|<1e-150", "close_to:far:|x|>1e150",
+    "close_to:signed-zeros", "eq:signed-zeros", "eq:opposite-sign:2e-13..1e300", "eq:identical:1e-300..1e300",
+    "is_symmetric:negative:|x|<1e-150", "is_upper_triangular:tiny-offender",
+];
+
 const PROGRAM_REGIMES: [&str; 62] = [
     "t", "t_mut", "reshape:explicit", "reshape:infer-dividing", "reshape:infer-nondividing", "reshape:explicit-mismatch", "reshape:invalid-args",
     "reshape_mut:explicit", "reshape_mut:infer-dividing", "reshape_mut:infer-nondividing", "reshape_mut:explicit-mismatch", "reshape_mut:invalid-args",
@@ -1270,18 +1675,22 @@ const OTHER_REGIMES: [&str; 33] = [
 pub fn run(cfg: &Cfg, rep: &mut Report) {
     rep.rule = "random programs of 1..40 structural operations (30 kinds, ~60 regimes incl. the must-panic variants) over matrices that start at 1..8 x 1..8 with pairwise distinct entries, \
                 run in lock-step with a Vec<Vec<f64>> model (Miri smoke: 300 programs of 1..3 operations); constructors at sizes 1..64 with real start/stop/step and angles in +-4pi x 3 axes; \
-                predicates and comparisons on constructed positives/negatives. non-trivial program = at least 3 shape-changing operations; distinct by hash of (start shape, operation codes, intermediate shapes)"
+                predicates and comparisons on constructed positives/negatives, on special-value matrices (signs, zeros, near-ones) over every shape 1..8 x 1..8, on prefix/extension and reshaped operands, and on values at the ends of the f64 range (magnitudes 5e-324..1.8e308 in three bands, signed zeros: opposite-sign / identical / near / far pairs for close_to and ==, symmetric and triangular predicates). non-trivial program = at least 3 shape-changing operations; distinct by hash of (start shape, operation codes, intermediate shapes)"
         .into();
     rep.assume("concatenation / repetition is only applied while the result stays within 8 rows and 8 columns (reshape may produce any factorisation of at most 64 elements)");
     rep.assume("zero-sized matrices are outside the quantifier (1..8 rows/columns, sizes 1..64): Matrix::zeros(0, n), hrepeat(0), linspace(a, b, 0) are not exercised");
     rep.assume("Matrix::with_shape / Vector::empty_n return garbage by contract: only nrows, ncols and data.len() are inspected, the contents are never read");
     rep.assume("predicates are decided on clear positives/negatives (asymmetry or deviation >= 1e-3 * scale); comparisons on pairs that are identical, within tol/10, beyond 10*tol, or of opposite sign with magnitudes >= 1e3 * tol");
+    rep.assume("extreme-magnitude comparisons: close_to is relative (rel_diff), so non-zero values of opposite sign must be reported not close at every magnitude 5e-324..1.8e308 and every tol in 1e-12..1e-2; +0.0/-0.0 are equal; same-sign pairs within tol/10 (normal numbers 1e-290..1e300) must be reported close. `==` is absolute (|x-y| <= f64::EPSILON): opposite signs are asserted for magnitudes >= 1e3*EPSILON only (below that the definition itself equates them, e.g. [1e-300] == [-1e-300])");
+    rep.assume("special-value predicates: entries from {1, -1, 0, -0, 0.5, 2, -2, 1.001, 0.999, -0.5, 3, 1e-3}; a design matrix has every first-column entry equal to one (so -1, 0, 1 +- 1e-3 are not), zeros of either sign are zero for the triangular predicates, a mirrored pair (v, -v) or (v, 1.001 v) breaks symmetry; operands of different length or shape are never equal / close even when all common elements agree");
     rep.assume("arange: the exact ratio (stop-start)/step is evaluated in double-double; the point count is only pinned (= ceil) when its fractional part lies in [0.05, 0.95]");
     let lean = cfg.miri();
     let n_prog = cfg.pick(2000, 50000, 300);
     // memcheck / ASan (native lite): enough constructor cases to reach every class
     let n_ctor = if cfg.lite && !cfg.miri() { 120 } else { cfg.pick(600, 12000, 3) };
     let maxn = if cfg.miri() { 5 } else { 64 };
+    let n_xcmp = if cfg.lite { 60 } else { cfg.pick(1500, 30000, 60) };
+    let n_special = if cfg.lite { 128 } else { cfg.pick(1920, 38400, 128) }; // multiples of the 64 shapes
     if cfg.miri() {
         // one case, one tally, one flush (every `Report` map operation costs ~10 ms under Miri)
         par_cases(cfg, rep, 1, 1, |_i, rng, rep| {
@@ -1294,6 +1703,12 @@ pub fn run(cfg: &Cfg, rep: &mut Report) {
                 constructors(&mut t, rng, maxn);
                 predicates(&mut t, rng, maxn);
                 comparisons(&mut t, rng, maxn);
+                comparisons_extreme(&mut t, rng);
+                predicates_extreme(&mut t, rng);
+            }
+            for i in 0..6 {
+                predicates_special(&mut t, rng, 9 * i + 1);
+                comparisons_prefix(&mut t, rng);
             }
             t.flush(rep);
         });
@@ -1313,6 +1728,23 @@ pub fn run(cfg: &Cfg, rep: &mut Report) {
             comparisons(&mut t, rng, m);
             t.flush(rep);
         });
+        // comparisons and predicates across extreme magnitudes
+        par_cases(cfg, rep, 3, n_xcmp, |_i, rng, rep| {
+            let mut t = Tally::new(lean);
+            comparisons_extreme(&mut t, rng);
+            predicates_extreme(&mut t, rng);
+            t.flush(rep);
+        });
+        // predicates on special-value matrices (every shape 1..8 x 1..8 in turn), prefix / reshape comparisons
+        par_cases(cfg, rep, 4, n_special, |i, rng, rep| {
+            let mut t = Tally::new(lean);
+            predicates_special(&mut t, rng, i);
+            comparisons_prefix(&mut t, rng);
+            t.flush(rep);
+        });
+        for r in EXTREME_REGIMES.iter().chain(SPECIAL_REGIMES.iter()) {
+            rep.require(r, 1);
+        }
     }
     for r in PROGRAM_REGIMES.iter().chain(OTHER_REGIMES.iter()) {
         if cfg.miri()
